@@ -562,7 +562,7 @@ func (f *Frame) intrinsic(name string, callee *ssa.Function, args []Val, pos tok
 		hn, hs := c.heapNameArr(types.Typ[types.Uint8])
 		v := args[0]
 		arr := fmt.Sprintf("(select %s (sbase %s))", c.heap(f.st, hn, hs), v.S)
-		return Val{T: types.Typ[types.String], S: c.bind("mem2str", fmt.Sprintf("(mkstr %s (xoff %s) (xlen %s))", arr, v.S, v.S), "Str")}, true
+		return Val{T: types.Typ[types.String], S: c.bind("mem2str", fmt.Sprintf("(mkstr %s (xoff %s) (xlen %s) (sbase %s))", arr, v.S, v.S, v.S), "Str")}, true
 	case "github.com/bytedance/sonic/internal/rt.NoEscape":
 		return args[0], true
 	case "sync/atomic.LoadPointer", "sync/atomic.LoadUint64", "sync/atomic.LoadInt64", "sync/atomic.LoadUint32", "sync/atomic.LoadInt32", "sync/atomic.LoadUintptr":
